@@ -62,8 +62,8 @@ def recorder() -> Any:
     return VfRecorder
 
 
-def flags_for(creds: str, with_recorder: bool) -> Any:
-    key = (creds, with_recorder)
+def flags_for(creds: str, with_recorder: bool, disable: bool = False) -> Any:
+    key = (creds, with_recorder, disable)
     if key not in _FLAGS:
         if len(_FLAGS) > 64:
             for k_ in [x for x in _FLAGS if isinstance(x, tuple)]:
@@ -71,7 +71,8 @@ def flags_for(creds: str, with_recorder: bool) -> Any:
         opts: Dict[str, Any] = {'basic_auth': creds}
         if with_recorder:
             opts['plugins'] = [recorder()]
-        _FLAGS[key] = K.make_flags(['--threadless'], **opts)
+        # the operator may also have disabled headers of his own: that must not change what happens to the credentials
+        _FLAGS[key] = K.make_flags(['--threadless'] + (['--disable-headers', 'x-secret,accept-language'] if disable else []), **opts)
     return _FLAGS[key]
 
 
@@ -120,7 +121,7 @@ def build_first(c: Dict[str, Any]) -> Tuple[bytes, List[bytes]]:
 
 def run_case(c: Dict[str, Any]) -> Dict[str, Any]:
     del CALLS[:]
-    flags = flags_for(c['creds'], c['recorder'])
+    flags = flags_for(c['creds'], c['recorder'], bool(c.get('disable')))
     w = K.World(flags, max_iters=20000)
     first, values = build_first(c)
     token = token_of(c['creds'])
@@ -275,7 +276,7 @@ def cases(draw: Any) -> Dict[str, Any]:
     first_len = 400
     c = {'creds': creds, 'method': draw(st.sampled_from([b'GET', b'GET', b'POST', b'PUT', b'CONNECT', b'DELETE', b'OPTIONS'])),
          'auth_lines': lines, 'kinds': kinds, 'extra_headers': draw(G.header_list(0, 3)),
-         'body': draw(st.binary(max_size=20)), 'recorder': draw(st.booleans()),
+         'body': draw(st.binary(max_size=20)), 'recorder': draw(st.booleans()), 'disable': draw(st.integers(0, 3)) == 0,
          'cuts': draw(st.one_of(st.just([]), st.lists(st.integers(1, first_len), max_size=5), st.just(list(range(1, first_len))))),
          'followups': draw(st.lists(st.booleans(), max_size=2)),
          'schedule': draw(st.lists(st.integers(0, 2), max_size=20))}
@@ -465,7 +466,7 @@ def run_shard(spec: Dict[str, Any], seed: int, acc: Any) -> None:
     def chk(c: Dict[str, Any]) -> List[Any]:
         vs, info = evaluate(c)
         labs = ['class:' + info['class'], 'method:' + ('CONNECT' if c['method'] == b'CONNECT' else 'other'),
-                'recorder' if c['recorder'] else 'no-recorder'] + ['kind:' + k_ for k_ in set(c['kinds'])]
+                'recorder' if c['recorder'] else 'no-recorder'] + (['operator-disabled-headers'] if c.get('disable') else []) + ['kind:' + k_ for k_ in set(c['kinds'])]
         if info.get('dontcare'):
             acc.dontcare += 1
         nt = info['near_miss'] or (info['class'] == 'must-accept' and info['nreq'] >= 2)
